@@ -393,8 +393,10 @@ func checkC14(c *Cell, seed uint64, orders int, tier, out string, res *Result, s
 		return
 	}
 	res.Generations++
-	// (only when moq's own code uses goroutines or sync: the property speaks of
-	// fresh instances, not of instances used at the same time)
+	// (only when moq's own code starts goroutines or uses mutexes, pools, maps,
+	// wait groups or atomics: the property speaks of fresh instances, not of
+	// instances used at the same time; a sync.Once for lazy initialisation is
+	// no statement about concurrent use)
 	for k := 0; k < 2 && k < orders && os.Getenv("GENSIM_CONCURRENT") == "1"; k++ {
 		tp := tape.New(tape.Mix(base, uint64(5000+k)))
 		d := partnerOf[c.ID]
@@ -410,10 +412,11 @@ func checkC14(c *Cell, seed uint64, orders int, tier, out string, res *Result, s
 		res.Nontrivial++
 		sigs[hashInts(fnvs(c.ID)^77, tp.Out)] = struct{}{}
 		if !same(a, ref) || !same(b, refD) {
-			// the property speaks of fresh instances, not of instances used at
-			// the same time: a signal, not a verdict (instances created one after
-			// the other are covered by the interleaved generation above)
+			// (this part only runs when moq's own code uses devices whose purpose
+			// is concurrent use - goroutines, mutexes, pools, atomics: then fresh
+			// instances are also expected to be usable side by side)
 			res.Signals["concurrent-instances-interfere"]++
+			reportConc(c, d, seed, tier, out, res, ref, refD, tp.Out)
 			break
 		}
 	}
